@@ -48,6 +48,9 @@ type SeqCheck struct {
 
 var SeqChecks = map[string]*SeqCheck{}
 
+// SeqExtras run after the exploration of a SEQ check (small exhaustive tables).
+var SeqExtras = map[string]func(rep *Report){}
+
 func RegisterSeq(c *SeqCheck) {
 	SeqChecks[c.ID] = c
 	id := c.ID
@@ -61,7 +64,7 @@ type seqArg struct {
 	Tier    string    `json:"tier"`
 	Spec    int       `json:"spec"`
 	Mode    string    `json:"mode"` // expand | probe
-	Hists   [][]uint8 `json:"hists"`
+	Hists   [][]uint16 `json:"hists"`
 	Verbose bool      `json:"verbose"`
 }
 
@@ -113,7 +116,7 @@ func init() {
 			for _, hst := range a.Hists {
 				var row []succOut
 				for k := range sp.Ops {
-					hh := append(append([]uint8{}, hst...), uint8(k))
+					hh := append(append([]uint16{}, hst...), uint16(k))
 					r := sp.runHist(hh, false, false)
 					row = append(row, succOut{FP: r.fp, Viol: r.lastViol, Dead: r.dead, NReq: r.nreq})
 				}
@@ -149,7 +152,7 @@ type histResult struct {
 	nreq      int
 }
 
-func (sp *SeqSpec) names(hist []uint8) []string {
+func (sp *SeqSpec) names(hist []uint16) []string {
 	out := make([]string, len(hist))
 	for i, k := range hist {
 		out[i] = sp.Ops[k].Name
@@ -159,7 +162,7 @@ func (sp *SeqSpec) names(hist []uint8) []string {
 
 // runHist executes one history on a fresh world. lastViol holds the violations of the last
 // operation only (earlier ones were reported when their transition was first explored).
-func (sp *SeqSpec) runHist(hist []uint8, probe, verbose bool) (res histResult) {
+func (sp *SeqSpec) runHist(hist []uint16, probe, verbose bool) (res histResult) {
 	var w *World
 	defer func() {
 		if p := recover(); p != nil {
@@ -266,6 +269,9 @@ func RunSeq(id, tier string) int {
 	rep.Rule = c.Rule
 	rep.Assume = c.Assume
 	RunSeqInto(rep, id, tier, time.Time{})
+	if x, ok := SeqExtras[id]; ok {
+		x(rep)
+	}
 	return rep.Emit()
 }
 
@@ -299,11 +305,11 @@ func RunSeqInto(rep *Report, id, tier string, deadline time.Time) {
 			chunk = 6
 		}
 		part := map[string]any{"spec": sp.Name, "ops": len(sp.Ops)}
-		mk := func(mode string, hists [][]uint8, verbose bool) Job {
+		mk := func(mode string, hists [][]uint16, verbose bool) Job {
 			return MkJob("seq", seqArg{ID: id, Tier: tier, Spec: si, Mode: mode, Hists: hists, Verbose: verbose})
 		}
 		// initial state, twice (determinism self test)
-		r0 := pool.Run([]Job{mk("probe", [][]uint8{{}}, true), mk("probe", [][]uint8{{}}, true)}, nil)
+		r0 := pool.Run([]Job{mk("probe", [][]uint16{{}}, true), mk("probe", [][]uint16{{}}, true)}, nil)
 		var p0, p1 probeOut
 		if !decode(rep, r0[0], &p0) || !decode(rep, r0[1], &p1) {
 			continue
@@ -318,11 +324,11 @@ func RunSeqInto(rep *Report, id, tier string, deadline time.Time) {
 		}
 		rep.States++
 		rep.Traces += 2
-		frontier := [][]uint8{{}}
+		frontier := [][]uint16{{}}
 		depth := 0
 		capped := false
 		closed := false
-		var deepest []uint8
+		var deepest []uint16
 		nontriv := 0
 		selfTested := 0
 		for depth < sp.MaxDepth && len(frontier) > 0 {
@@ -332,7 +338,7 @@ func RunSeqInto(rep *Report, id, tier string, deadline time.Time) {
 				break
 			}
 			var jobs []Job
-			var jobH [][][]uint8
+			var jobH [][][]uint16
 			for i := 0; i < len(frontier); i += chunk {
 				j := i + chunk
 				if j > len(frontier) {
@@ -357,7 +363,7 @@ func RunSeqInto(rep *Report, id, tier string, deadline time.Time) {
 				jobH = jobH[:len(jobH)-1]
 				selfTested++
 			}
-			var next [][]uint8
+			var next [][]uint16
 			skipped := 0
 			for ji, jr := range results {
 				if IsSkipped(jr) {
@@ -387,7 +393,7 @@ func RunSeqInto(rep *Report, id, tier string, deadline time.Time) {
 						}
 						visited[so.FP] = struct{}{}
 						rep.States++
-						nh := append(append([]uint8{}, hst...), uint8(k))
+						nh := append(append([]uint16{}, hst...), uint16(k))
 						if !so.Dead {
 							next = append(next, nh)
 						}
@@ -404,7 +410,7 @@ func RunSeqInto(rep *Report, id, tier string, deadline time.Time) {
 			}
 			// probe the new states
 			var pjobs []Job
-			var pH [][][]uint8
+			var pH [][][]uint16
 			for i := 0; i < len(next); i += chunk * 2 {
 				j := i + chunk*2
 				if j > len(next) {
@@ -462,7 +468,7 @@ func RunSeqInto(rep *Report, id, tier string, deadline time.Time) {
 		rep.Parts = append(rep.Parts, part)
 		// samples: transcript of the deepest history and the alphabet
 		if deepest != nil && len(rep.Samples) < 6 {
-			rs := pool.Run([]Job{mk("probe", [][]uint8{deepest}, true)}, nil)
+			rs := pool.Run([]Job{mk("probe", [][]uint16{deepest}, true)}, nil)
 			var po probeOut
 			if rs[0].Error == "" && json.Unmarshal(rs[0].Out, &po) == nil && len(po.Trace) > 0 {
 				rep.Samples = append(rep.Samples, map[string]any{"spec": sp.Name, "history": sp.names(deepest), "transcript": clip(po.Trace[0], 40)})
@@ -501,15 +507,15 @@ func decode(rep *Report, jr JobResult, out any) bool {
 // diagnoseDeath re-runs the histories of a job whose worker died one by one to find the
 // history that kills the process (fatal runtime error, unrecoverable hang); that history is a
 // violation ("the handler must return"), everything else is an infrastructure error.
-func (rep *Report) diagnoseDeath(pool *Pool, mk func(string, [][]uint8, bool) Job, sp *SeqSpec, hists [][]uint8, jr JobResult) {
+func (rep *Report) diagnoseDeath(pool *Pool, mk func(string, [][]uint16, bool) Job, sp *SeqSpec, hists [][]uint16, jr JobResult) {
 	found := false
 	for _, hst := range hists {
 		for k := -1; k < len(sp.Ops); k++ {
-			hh := append([]uint8{}, hst...)
+			hh := append([]uint16{}, hst...)
 			if k >= 0 {
-				hh = append(hh, uint8(k))
+				hh = append(hh, uint16(k))
 			}
-			r := pool.Run([]Job{mk("probe", [][]uint8{hh}, false)}, nil)[0]
+			r := pool.Run([]Job{mk("probe", [][]uint16{hh}, false)}, nil)[0]
 			if r.Died {
 				found = true
 				sig := "process-death:" + deathSig(r.Log)
@@ -577,12 +583,12 @@ func ReplaySeq(id, tier, specName string, history []string) int {
 		if sp.Name != specName {
 			continue
 		}
-		var hist []uint8
+		var hist []uint16
 		for _, n := range history {
 			found := false
 			for k, o := range sp.Ops {
 				if o.Name == n {
-					hist = append(hist, uint8(k))
+					hist = append(hist, uint16(k))
 					found = true
 					break
 				}
